@@ -54,6 +54,8 @@ def cells(tier, seed):
                     "call_noise": "absent"})
     for call_noise in ("absent", "given"):
         out.append({"kind": "list", "n": 3, "lb": [], "db": [], "call_noise": call_noise})
+    for k in ("gaussian", "fixed", "fixed_learn", "multitask"):
+        out.append({"kind": "sequence", "of": k, "n": 3, "lb": [], "db": [], "call_noise": "mixed"})
     return out
 
 
@@ -67,11 +69,88 @@ def run_cell(cell, seed):
         res = run_multitask(cell, g, fails, feats)
     elif kind == "list":
         res = run_list(cell, g, fails, feats)
+    elif kind == "sequence":
+        feats["of"] = cell["of"]
+        res = run_sequence(cell, g, fails, feats)
     else:
         res = run_single(cell, g, fails, feats)
     for f in fails:
         f.setdefault("features", feats)
-    return {"fails": fails, "sig": (res or "ok") + ":" + ",".join(sorted({f["sub"] for f in fails})), "features": feats, "ops": 5}
+    return {"fails": fails, "sig": (res or "ok") + ":" + ",".join(sorted({f["sub"] for f in fails})), "features": feats, "ops": _OPS.pop("n", 5)}
+
+
+_OPS = {}
+
+
+def run_sequence(cell, g, fails, feats):
+    """a likelihood keeps no state between calls: on ONE instance, after every sequence of at most three calls (method x argument variant,
+    incl. call-time noise and a different number of points) each call returns what a freshly built instance returns"""
+    of, n = cell["of"], cell["n"]
+    mt = of == "multitask"
+    t = 2
+    fixed = 0.05 + util.rand(g, n)
+    s2 = 0.1 + util.rand(g, 1)
+    tn = 0.1 + util.rand(g, t)
+
+    def fresh():
+        torch.manual_seed(23)  # the rank-1 task-noise factor is initialised randomly by the library: owned
+        if of == "gaussian":
+            lik = GaussianLikelihood()
+            lik.noise = s2
+        elif mt:
+            lik = MultitaskGaussianLikelihood(num_tasks=t, rank=1)
+            lik.noise = s2
+        else:
+            lik = FixedNoiseGaussianLikelihood(noise=fixed.clone(), learn_additional_noise=(of == "fixed_learn"))
+            if of == "fixed_learn":
+                lik.second_noise = s2
+        return lik
+
+    def mk(nn, bs=()):
+        if mt:
+            return MT(util.randn(g, *bs, nn, t), util.spd(g, *bs, nn * t)), util.randn(g, *bs, nn, t)
+        return MVN(util.randn(g, *bs, nn), util.spd(g, *bs, nn)), util.randn(g, *bs, nn)
+
+    variants = {"n": (mk(n), {}), "n-batch": (mk(n, (2,)), {}), "n+2": (mk(n + 2), {})}
+    if of.startswith("fixed"):
+        variants["n+noise"] = (mk(n), {"noise": 0.05 + util.rand(g, n)})
+        variants["n+2+noise"] = (mk(n + 2), {"noise": 0.05 + util.rand(g, n + 2)})
+    alphabet = [(meth, v) for meth in ("marginal", "expected_log_prob", "log_marginal") for v in variants]
+
+    def call(lik, a):
+        meth, v = a
+        (dist, y), kw = variants[v]
+        if meth == "marginal":
+            out = lik(dist, **kw)
+            return torch.cat([out.mean.reshape(-1), out.covariance_matrix.reshape(-1)])
+        return getattr(lik, meth)(y, dist, **kw)
+
+    want = {}
+    with torch.no_grad():
+        for a in alphabet:
+            try:
+                want[a] = call(fresh(), a)
+            except Exception:
+                want[a] = None  # a call that a fresh instance refuses is judged by the other cells
+        alphabet = [a for a in alphabet if want[a] is not None]
+        nseq = 0
+        for depth in (1, 2, 3):
+            for seq in itertools.product(alphabet, repeat=depth):
+                lik = fresh()
+                nseq += 1
+                for i, a in enumerate(seq):
+                    try:
+                        got = call(lik, a)
+                    except Exception as e:
+                        fails.add("sequence", f"{a[0]}[{a[1]}] raises after {[f'{x[0]}[{x[1]}]' for x in seq[:i]]}: {util.exc_str(e)}")
+                        break
+                    if tuple(got.shape) != tuple(want[a].shape) or util.maxerr(got, want[a]) > 1e-12:
+                        fails.add("sequence", f"{a[0]}[{a[1]}] after the calls {[f'{x[0]}[{x[1]}]' for x in seq[:i]]} differs from a fresh instance")
+                        break
+                    _OPS["n"] = _OPS.get("n", 0) + 1
+                if len(fails) > 5:
+                    return "sequence"
+    return "sequence"
 
 
 def run_single(cell, g, fails, feats):
